@@ -6,6 +6,9 @@ Import ListNotations.
 From V Require Import Base.U32 Base.Bytes Base.Iface Gen.RelayConsts C07.Model C07.Proofs.
 Local Open Scope Z_scope.
 
+Section W.
+Context {wr : Wraps}.
+
 Definition fin_in (x : slot) (l : list out) : Prop :=
   exists tcb u0 u, In (GFinish tcb (s_chan x) (s_target x) (g_t0 x) (g_dur x) u0 u) l.
 (* every slot running in s: still runs in s' (same arming), or its switch-back is in the trace of s', or its channel is in P *)
@@ -36,7 +39,7 @@ Lemma frame_outs s s' : frame s s' -> exists a, outs s' = a ++ outs s.
 Proof. intros []. auto. Qed.
 
 (* ---------- the evaluation of the table ---------- *)
-Lemma cd_cb_fate c due s s' : s' = cd_cb c due s -> Inv s -> Tr s -> NW s' -> fate (fun _ => False) s s'.
+Lemma cd_cb_fate c due s s' : s' = cd_cb c due s -> Inv s -> Tr s -> NWw s' -> fate (fun _ => False) s s'.
 Proof.
   intros Es' I T N. rewrite cd_cb_eq in Es'.
   remember (emit (GEvalStart due (now s)) s) as s1 eqn:Es1.
@@ -48,8 +51,8 @@ Proof.
   remember (emit (GEvalEnd (now s2)) s2) as s3 eqn:Es3.
   destruct (emit_facts _ _ _ Es3) as (Sl3 & Nb & O3 & D3 & C3 & F23 & R3 & A3).
   pose proof (frame_startstop s3) as F34. rewrite <- Es' in F34.
-  assert (N3 : NW s3) by (eapply NW_frame; eauto).
-  assert (N2 : NW s2) by (eapply NW_frame; eauto).
+  assert (N3 : NWw s3) by (eapply NW_frame; eauto).
+  assert (N2 : NWw s2) by (eapply NW_frame; eauto).
   assert (L : LoopInv s1 s2 8) by (subst s2; apply cd_loop_spec; auto).
   destruct (startstop_same s3) as (E1 & _ & _ & _ & _ & _ & E7 & _). rewrite <- Es' in E1, E7.
   intros x Hx Ax. rewrite <- Sl1 in Hx. destruct (in_slot_at s1 x Hx) as (i & Hi & Ei). rewrite (i_len _ I1) in Hi. subst x.
@@ -108,13 +111,13 @@ Qed.
 (* ---------- commands ---------- *)
 Lemma countdown_fate e c ms gpio ch target sender s s' :
   s' = countdown e c ms gpio ch target sender s ->
-  Good s -> 0 <= ch < 255 -> (forall x, In x (slots s) -> s_chan x <> ch) -> NW s' ->
+  Good s -> 0 <= ch < 255 -> (forall x, In x (slots s) -> s_chan x <> ch) -> NWw s' ->
   fate (fun _ => False) s s'.
 Proof.
   intros Es' G Hch NoCh N. unfold countdown in Es'. destruct e; [|rewrite Es'; apply arm_slot_fate; auto].
   remember (cd_cb c (if t_on (tcd s) then t_due (tcd s) else now s) s) as s0 eqn:Es0.
   assert (F0' : frame s0 s') by (rewrite Es'; apply arm_slot_frame).
-  assert (N0 : NW s0) by (eapply NW_frame; eauto).
+  assert (N0 : NWw s0) by (eapply NW_frame; eauto).
   destruct (cd_cb_spec c _ s s0 Es0 (g_inv _ G) (g_tr _ G) N0) as (G0 & F0 & Nw0 & EV & _ & _).
   pose proof (evald_nochan s s0 ch Hch (g_inv _ G) (i_len _ (g_inv _ G0)) EV NoCh) as NoCh0.
   apply (fate_trans _ s s0 s'); [apply frame_outs; auto|apply (cd_cb_fate c _ s s0 Es0 (g_inv _ G) (g_tr _ G) N0)|].
@@ -123,7 +126,7 @@ Qed.
 
 Lemma sdt_fate e c ch newv dur sender s s' :
   s' = set_duration_timer e c ch newv dur sender s ->
-  wf_cfg c -> Good s -> 0 <= ch < 8 -> dur < 4294967296 -> NW s' ->
+  wf_cfg c -> Good s -> 0 <= ch < 8 -> dur < 4294967296 -> NWw s' ->
   fate (fun k => k = ch) s s'.
 Proof.
   intros Es' W G Hch Hdur N. unfold set_duration_timer in Es'.
@@ -147,7 +150,7 @@ Proof.
   remember (if (newv =? 1) || hasf f CHFLAG_COUNTDOWN
             then countdown e c (u32 dur1) (r_gpio r) ch (if newv =? 0 then 1 else 0) sender s1 else s1) as s2 eqn:Es2.
   assert (P23 : passive s2 s') by (subst s'; destruct (hasf f _); [apply passive_ext_changed|apply passive_refl]).
-  assert (N2 : NW s2) by (eapply NW_passive; eauto).
+  assert (N2 : NWw s2) by (eapply NW_passive; eauto).
   assert (F12 : fate (fun k => k = ch) s1 s2 /\ exists a0, outs s2 = a0 ++ outs s1).
   { destruct ((newv =? 1) || hasf f CHFLAG_COUNTDOWN).
     - split; [|apply frame_outs; rewrite Es2; apply countdown_frame].
@@ -160,7 +163,7 @@ Proof.
 Qed.
 
 Lemma csv_fate e c ch v dur sender s s' :
-  s' = channel_set_value e c ch v dur sender s -> wf_cfg c -> Good s -> NW s' -> fate (fun k => k = ch) s s'.
+  s' = channel_set_value e c ch v dur sender s -> wf_cfg c -> Good s -> NWw s' -> fate (fun k => k = ch) s s'.
 Proof.
   intros Es' W G N. unfold channel_set_value in Es'.
   destruct (find_chan (c_relays c) 0 ch) as [[a r]|] eqn:EFC.
@@ -171,14 +174,14 @@ Proof.
   destruct (chan_set_value c (r_gpio r) v ch s1) as [s2 ok]. cbn [fst] in *.
   assert (P2' : passive s2 s') by (subst s'; apply passive_set_result).
   pose proof (passive_trans _ _ _ P12 P2') as P1'.
-  assert (N1 : NW s1) by (eapply NW_passive; eauto).
+  assert (N1 : NWw s1) by (eapply NW_passive; eauto).
   pose proof (s32_range dur).
   apply (fate_trans _ s s1 s'); [destruct (pa_outs _ _ P1') as (b & Eb & _); exists b; auto| |apply fate_passive; auto].
   eapply sdt_fate; eauto. lia.
 Qed.
 
 Lemma rsw_fate e c port hi s s' :
-  s' = relay_switch e c port hi s -> wf_cfg c -> Good s -> NW s' ->
+  s' = relay_switch e c port hi s -> wf_cfg c -> Good s -> NWw s' ->
   fate (fun k => k = last_chan (c_relays c) port (-1)) s s'.
 Proof.
   intros Es' W G N. unfold relay_switch in Es'. set (ch := last_chan (c_relays c) port (-1)) in *.
@@ -196,7 +199,7 @@ Proof.
   assert (P12 : passive s1 s2) by (subst s2; apply passive_relay_hi).
   assert (P2' : passive s2 s') by (subst s'; apply passive_value_changed).
   pose proof (passive_trans _ _ _ P12 P2') as P1'.
-  assert (N1 : NW s1) by (eapply NW_passive; eauto).
+  assert (N1 : NWw s1) by (eapply NW_passive; eauto).
   pose proof (sdt_fate e c ch hi2 0 0 s0 s1 Es1 W (Good_passive _ _ P0 G) Hc ltac:(lia) N1) as F01.
   apply (fate_trans _ s s0 s').
   - destruct (pa_outs _ _ P1') as (b & Eb & _). destruct (frame_outs _ _ (sdt_frame e c ch hi2 0 0 s0)) as (a & Ea). rewrite <- Es1 in Ea.
@@ -207,7 +210,7 @@ Qed.
 
 (* ---------- timers, steps, histories ---------- *)
 Lemma fire_fate e c i s s' :
-  s' = fire e c i s -> wf_cfg c -> Good s -> t_on (get_t i s) = true -> NW s' -> fate (fun _ => False) s s'.
+  s' = fire e c i s -> wf_cfg c -> Good s -> t_on (get_t i s) = true -> NWw s' -> fate (fun _ => False) s s'.
 Proof.
   intros Es' W G Hon N. unfold fire in Es'.
   set (t := get_t i s) in *. set (n := len (c_late c)) in *.
@@ -254,7 +257,7 @@ Proof.
 Qed.
 
 Lemma adv_fate e c fuel : forall end_ s s',
-  s' = adv e c fuel end_ s -> wf_cfg c -> Good s -> NW s' -> fate (fun _ => False) s s'.
+  s' = adv e c fuel end_ s -> wf_cfg c -> Good s -> NWw s' -> fate (fun _ => False) s s'.
 Proof.
   induction fuel as [|k IH]; intros end_ s s' Es' W G N; cbn [adv] in Es'.
   - apply fate_same_slots. subst s'. reflexivity.
@@ -262,28 +265,28 @@ Proof.
     apply pick_some in EP. unfold due_ok in EP. apply andb_true_iff in EP. destruct EP as [Hon _].
     remember (fire e c i s) as s1 eqn:Es1.
     assert (F1' : frame s1 s') by (subst s'; apply adv_frame).
-    assert (N1 : NW s1) by (eapply NW_frame; eauto).
+    assert (N1 : NWw s1) by (eapply NW_frame; eauto).
     destruct (fire_spec e c i s s1 Es1 W G Hon N1) as (G1 & _ & _).
     apply (fate_trans _ s s1 s'); [apply frame_outs; auto|eapply fire_fate; eauto|eapply IH; eauto].
 Qed.
 Lemma advance_fate e c dt s s' :
-  s' = advance e c dt s -> wf_cfg c -> Good s -> NW s' -> fate (fun _ => False) s s'.
+  s' = advance e c dt s -> wf_cfg c -> Good s -> NWw s' -> fate (fun _ => False) s s'.
 Proof.
   intros Es' W G N. unfold advance in Es'.
   remember (adv e c (Z.to_nat (dt / 20000 + 64)) (now s + dt) s) as s1 eqn:Es1.
   destruct (now s1 <? now s + dt) eqn:E; [apply Z.ltb_lt in E|].
-  - assert (N1 : NW s1). { subst s'. unfold NW in *. cbn in N. lia. }
+  - assert (N1 : NWw s1) by (apply (NW_ext s1 s'); [subst s'; reflexivity|subst s'; reflexivity|subst s'; cbn; lia|exists []; subst s'; reflexivity|exact N]).
     apply (fate_trans _ s s1 s'); [subst s'; exists []; reflexivity|eapply adv_fate; eauto|apply fate_same_slots; subst s'; reflexivity].
   - subst s'. eapply adv_fate; eauto.
 Qed.
 
 Lemma step_fate e c s x s' :
-  s' = step e c s x -> wf_cfg c -> wf_ev x -> Good s -> NW s' -> fate (ev_chan c x) s s'.
+  s' = step e c s x -> wf_cfg c -> wf_ev x -> Good s -> NWw s' -> fate (ev_chan c x) s s'.
 Proof.
   intros Es' W Wx G N. unfold step in Es'.
   set (s1 := match x with ESet _ _ _ _ => _ | _ => _ end) in *.
   assert (P : passive s1 s') by (subst s'; apply passive_emit; exact Logic.I).
-  assert (N1 : NW s1) by (eapply NW_passive; eauto).
+  assert (N1 : NWw s1) by (eapply NW_passive; eauto).
   apply (fate_trans _ s s1 s'); [destruct (pa_outs _ _ P) as (b & Eb & _); exists b; auto| |apply fate_passive; auto].
   destruct x; unfold s1 in *; cbn [ev_chan].
   - eapply csv_fate; eauto.
@@ -297,12 +300,12 @@ Qed.
 
 (* a history without a command on channel ch and without a restart *)
 Lemma run_fate e c ch : forall post s,
-  wf_cfg c -> Forall wf_ev post -> (forall x, In x post -> ~ ev_chan c x ch) -> Good s -> NWrun e c s post ->
+  wf_cfg c -> Forall wf_ev post -> (forall x, In x post -> ~ ev_chan c x ch) -> Good s -> NWwrun e c s post ->
   fate (fun k => k <> ch) s (run_from e c s post).
 Proof.
   induction post as [|x post IH]; intros s W Wp NC G N; [apply fate_refl|].
   change (run_from e c s (x :: post)) with (run_from e c (step e c s x) post).
-  apply NWrun_cons in N. destruct N as [N1 N2]. inversion Wp; subst.
+  apply NWwrun_cons in N. destruct N as [N1 N2]. inversion Wp; subst.
   destruct (step_spec e c s x _ eq_refl W H1 G N1) as (G1 & _).
   apply (fate_trans _ s (step e c s x) _); [apply run_outs; auto| |apply IH; auto].
   - eapply fate_weaken; [|eapply step_fate; eauto]. intros k Hk E. subst k. apply (NC x); cbn; auto.
@@ -313,13 +316,13 @@ Qed.
 (* (repaired countdown) A slot armed at t0 for dur ms on channel ch: if no command on ch and no restart follows and an
    advance then reaches t0 + dur + 50 ms + 8 relay operations, the trace contains a switch-back of that arming, and no
    arming has two switch-backs. *)
-Theorem exactly_once_thm c S s x post dt :
+Theorem exactly_once_w c S s x post dt :
   wf_cfg c -> Good s -> J true S s -> 0 <= S -> In x (slots s) -> active x = true ->
   Forall wf_ev post -> (forall ev, In ev post -> ~ ev_chan c ev (s_chan x)) -> 0 <= dt ->
   let s1 := run_from true c s post in
   let s2 := step true c s1 (EAdv dt) in
-  NWrun true c s (post ++ [EAdv dt]) -> Slack S (outs s2) -> ~ In OFuel (outs s2) ->
-  g_t0 x + g_dur x * 1000 + CD_MIN * 1000 + 8 * OP <= now s1 + dt ->
+  NWwrun true c s (post ++ [EAdv dt]) -> Slack S (outs s2) -> ~ In OFuel (outs s2) ->
+  g_t0 x + g_dur x * 1000 + CD_MIN * 1000 + 8 * OP + WB <= now s1 + dt ->
   fin_in x (outs s2) /\ NoDup (fins (outs s2)).
 Proof.
   intros W G Jj HS Hx Ax Wp NC Hdt s1 s2 N SL NF Dl.
@@ -328,8 +331,8 @@ Proof.
   { intros ev Hin. apply in_app_or in Hin. destruct Hin as [Hin|[<-|[]]]; [apply NC; auto|cbn; auto]. }
   pose proof (run_fate true c (s_chan x) (post ++ [EAdv dt]) s W Wp' NC' G N) as F.
   rewrite run_from_app in F. fold s1 in F. change (run_from true c s1 [EAdv dt]) with s2 in F.
-  apply NWrun_app in N. destruct N as [Npost Nadv]. fold s1 in Nadv.
-  assert (N2 : NW s2) by (apply (Nadv 1%nat)).
+  apply NWwrun_app in N. destruct N as [Npost Nadv]. fold s1 in Nadv.
+  assert (N2 : NWw s2) by (apply (Nadv 1%nat)).
   assert (SL1 : Slack S (outs s1)).
   { destruct (step_outs true c s1 (EAdv dt) Hdt) as (a & Ea). fold s2 in Ea. rewrite Ea in SL. eapply Slack_app; eauto. }
   destruct (run_J true S c post s W Wp G Jj Npost SL1 HS) as (G1 & J1). fold s1 in G1, J1.
@@ -340,11 +343,11 @@ Proof.
   (* y still runs after the advance: impossible beyond the deadline *)
   unfold s2, step in *. set (sa := advance true c dt s1) in *.
   assert (Pq : passive sa (emit (st_line c sa) sa)) by (apply passive_emit; exact Logic.I).
-  assert (Na : NW sa) by (eapply NW_passive; eauto).
+  assert (Na : NWw sa) by (eapply NW_passive; eauto).
   assert (SLa : Slack S (outs sa)) by (eapply Slack_frame; [apply frame_passive; exact Pq|exact SL]).
   assert (NFa : ~ In OFuel (outs sa)) by (intros H; apply NF; cbn; auto).
   cbn [slots emit set_outs] in Hy.
-  pose proof (fires_by_thm c S s1 dt W Hdt G1 J1 HS Na SLa NFa y Hy Ay) as B.
+  pose proof (fires_by_w c S s1 dt W Hdt G1 J1 HS Na SLa NFa y Hy Ay) as B.
   destruct Iy as (_ & E0 & Ed & _). rewrite <- E0, <- Ed in B. lia.
 Qed.
 
@@ -358,7 +361,7 @@ Proof. intros A B tcb tg t0 dur u0 u H. apply in_app_or in H. destruct H; [eappl
 
 Lemma sdt_nofin e S c ch newv dur sender s s' :
   s' = set_duration_timer e c ch newv dur sender s ->
-  wf_cfg c -> Good s -> J e S s -> 0 <= ch < 8 -> dur < 4294967296 -> NW s' -> Slack S (outs s') -> 0 <= S ->
+  wf_cfg c -> Good s -> J e S s -> 0 <= ch < 8 -> dur < 4294967296 -> NWw s' -> Slack S (outs s') -> 0 <= S ->
   exists add, outs s' = add ++ outs s /\ nofin_ch ch (now s) add.
 Proof.
   intros Es' W G Jj Hch Hdur N SL HS. unfold set_duration_timer in Es'.
@@ -385,7 +388,7 @@ Proof.
   remember (if (newv =? 1) || hasf f CHFLAG_COUNTDOWN
             then countdown e c (u32 dur1) (r_gpio r) ch (if newv =? 0 then 1 else 0) sender s1 else s1) as s2 eqn:Es2.
   assert (P23 : passive s2 s') by (subst s'; destruct (hasf f _); [apply passive_ext_changed|apply passive_refl]).
-  assert (N2 : NW s2) by (eapply NW_passive; eauto).
+  assert (N2 : NWw s2) by (eapply NW_passive; eauto).
   assert (SL2 : Slack S (outs s2)) by (eapply Slack_frame; [apply frame_passive; exact P23|auto]).
   assert (H2 : exists a2, outs s2 = a2 ++ outs s1 /\ nofin_ch ch (now s) a2).
   { destruct ((newv =? 1) || hasf f CHFLAG_COUNTDOWN).
@@ -402,7 +405,7 @@ Qed.
 (* a command event on channel ch: its own handler emits no switch-back of a timer of ch armed before it *)
 Lemma csv_nofin e S c ch v dur sender s s' :
   s' = channel_set_value e c ch v dur sender s ->
-  wf_cfg c -> Good s -> J e S s -> NW s' -> Slack S (outs s') -> 0 <= S ->
+  wf_cfg c -> Good s -> J e S s -> NWw s' -> Slack S (outs s') -> 0 <= S ->
   exists add, outs s' = add ++ outs s /\ nofin_ch ch (now s) add.
 Proof.
   intros Es' W G Jj N SL HS. unfold channel_set_value in Es'.
@@ -415,7 +418,7 @@ Proof.
   destruct (chan_set_value c (r_gpio r) v ch s1) as [s2 ok]. cbn [fst] in *.
   assert (P2' : passive s2 s') by (subst s'; apply passive_set_result).
   pose proof (passive_trans _ _ _ P12 P2') as P1'.
-  assert (N1 : NW s1) by (eapply NW_passive; eauto).
+  assert (N1 : NWw s1) by (eapply NW_passive; eauto).
   assert (SL1 : Slack S (outs s1)) by (eapply Slack_frame; [apply frame_passive; exact P1'|auto]).
   pose proof (s32_range dur).
   destruct (sdt_nofin e S c ch v (s32 dur) sender s s1 Es1 W G Jj Hc ltac:(lia) N1 SL1 HS) as (a1 & O1 & NF1).
@@ -424,7 +427,7 @@ Proof.
 Qed.
 Lemma rsw_nofin e S c port hi s s' :
   s' = relay_switch e c port hi s ->
-  wf_cfg c -> Good s -> J e S s -> NW s' -> Slack S (outs s') -> 0 <= S ->
+  wf_cfg c -> Good s -> J e S s -> NWw s' -> Slack S (outs s') -> 0 <= S ->
   exists add, outs s' = add ++ outs s /\ nofin_ch (last_chan (c_relays c) port (-1)) (now s) add.
 Proof.
   intros Es' W G Jj N SL HS. unfold relay_switch in Es'. set (ch := last_chan (c_relays c) port (-1)) in *.
@@ -443,7 +446,7 @@ Proof.
   assert (P12 : passive s1 s2) by (subst s2; apply passive_relay_hi).
   assert (P2' : passive s2 s') by (subst s'; apply passive_value_changed).
   pose proof (passive_trans _ _ _ P12 P2') as P1'.
-  assert (N1 : NW s1) by (eapply NW_passive; eauto).
+  assert (N1 : NWw s1) by (eapply NW_passive; eauto).
   assert (SL1 : Slack S (outs s1)) by (eapply Slack_frame; [apply frame_passive; exact P1'|auto]).
   destruct (JF_passive e S _ _ P0 G Jj) as [J0 _].
   destruct (sdt_nofin e S c ch hi2 0 0 s0 s1 Es1 W (Good_passive _ _ P0 G) J0 Hc ltac:(lia) N1 SL1 HS) as (a1 & O1 & NF1).
@@ -453,13 +456,13 @@ Proof.
   apply nofin_app; [apply nofin_noghost; auto|apply nofin_app; [auto|apply nofin_noghost; auto]].
 Qed.
 Lemma cmd_step_nofin e S c s x ch :
-  wf_cfg c -> wf_ev x -> Good s -> J e S s -> cmd_on c x ch -> NW (step e c s x) -> Slack S (outs (step e c s x)) -> 0 <= S ->
+  wf_cfg c -> wf_ev x -> Good s -> J e S s -> cmd_on c x ch -> NWw (step e c s x) -> Slack S (outs (step e c s x)) -> 0 <= S ->
   exists add, outs (step e c s x) = add ++ outs s /\ nofin_ch ch (now s) add.
 Proof.
   intros W Wx G Jj Cm N SL HS. unfold step in *.
   set (s1 := match x with ESet _ _ _ _ => _ | _ => _ end) in *.
   assert (P : passive s1 (emit (st_line c s1) s1)) by (apply passive_emit; exact Logic.I).
-  assert (N1 : NW s1) by (eapply NW_passive; eauto).
+  assert (N1 : NWw s1) by (eapply NW_passive; eauto).
   assert (SL1 : Slack S (outs s1)) by (eapply Slack_frame; [apply frame_passive; exact P|auto]).
   cut (exists add, outs s1 = add ++ outs s /\ nofin_ch ch (now s) add).
   { intros (a1 & O1 & NF1). exists (st_line c s1 :: a1). split; [cbn [outs emit set_outs]; rewrite O1; reflexivity|].
@@ -471,18 +474,18 @@ Qed.
 
 (* C07_cancel in full: a command on ch at time t1 (start of its handling): every switch-back of ch that is in the trace
    afterwards and was not there before belongs to a timer armed at or after t1 *)
-Theorem cancel_full_thm e c pre x post ch :
-  wf_cfg c -> Forall wf_ev (pre ++ x :: post) -> NWrun e c (start e c) (pre ++ x :: post) -> cmd_on c x ch ->
+Theorem cancel_full_w e c pre x post ch :
+  wf_cfg c -> Forall wf_ev (pre ++ x :: post) -> NWwrun e c (start e c) (pre ++ x :: post) -> cmd_on c x ch ->
   let s1 := run_from e c (start e c) pre in
   forall tcb tg t0 dur u0 u, In (GFinish tcb ch tg t0 dur u0 u) (outs (run_from e c (start e c) (pre ++ x :: post))) ->
     In (GFinish tcb ch tg t0 dur u0 u) (outs s1) \/ now s1 <= t0.
 Proof.
   intros W Wev N Cm s1 tcb tg t0 dur u0 u H.
-  destruct (cancel_thm e c pre x post ch W Wev N Cm tcb tg t0 dur u0 u H) as [Hin|Hl]; auto.
+  destruct (cancel_w e c pre x post ch W Wev N Cm tcb tg t0 dur u0 u H) as [Hin|Hl]; auto.
   fold s1 in Hin.
   destruct (slack_exists (outs (step e c s1 x))) as (S & HS & SL).
   pose proof Wev as Wev'. apply Forall_app in Wev'. destruct Wev' as [Wpre Wxp]. inversion Wxp as [|? ? Wx Wpost]; subst.
-  pose proof N as N'. apply NWrun_app in N'. destruct N' as [Npre Nxp]. fold s1 in Nxp.
+  pose proof N as N'. apply NWwrun_app in N'. destruct N' as [Npre Nxp]. fold s1 in Nxp.
   pose proof (Npre 0%nat) as N0. cbn in N0.
   destruct (run_outs e c pre (start e c) Wpre) as (a1 & E1). fold s1 in E1.
   destruct (step_outs e c s1 x Wx) as (ax & Ex).
@@ -490,7 +493,29 @@ Proof.
   assert (SL0 : Slack S (outs (start e c))) by (rewrite E1 in SL1; eapply Slack_app; eauto).
   destruct (run_J e S c pre (start e c) W Wpre (start_good e c W N0) (start_J e S c W N0 SL0 HS) Npre SL1 HS) as (G1 & J1).
   fold s1 in G1, J1.
-  apply NWrun_cons in Nxp. destruct Nxp as [N2 _].
+  apply NWwrun_cons in Nxp. destruct Nxp as [N2 _].
   destruct (cmd_step_nofin e S c s1 x ch W Wx G1 J1 Cm N2 SL HS) as (add & Oa & NF).
   rewrite Oa in Hin. apply in_app_or in Hin. destruct Hin as [Hin|Hin]; auto. right. eapply NF; eauto.
 Qed.
+End W.
+
+(* ---------- no wrap at all (WB = 0): the statements as before ---------- *)
+Theorem exactly_once_thm c S s x post dt :
+  wf_cfg c -> Good s -> J true S s -> 0 <= S -> In x (slots s) -> active x = true ->
+  Forall wf_ev post -> (forall ev, In ev post -> ~ ev_chan c ev (s_chan x)) -> 0 <= dt ->
+  let s1 := run_from true c s post in
+  let s2 := step true c s1 (EAdv dt) in
+  NWrun true c s (post ++ [EAdv dt]) -> Slack S (outs s2) -> ~ In OFuel (outs s2) ->
+  g_t0 x + g_dur x * 1000 + CD_MIN * 1000 + 8 * OP <= now s1 + dt ->
+  fin_in x (outs s2) /\ NoDup (fins (outs s2)).
+Proof.
+  intros W G Jj HS Hx Ax Wp Hp Hdt s1 s2 N SL NF Hd.
+  apply (@exactly_once_w nowrap c S s x post dt W G Jj HS Hx Ax Wp Hp Hdt (NWrun_NWwrun _ _ _ _ N) SL NF).
+  change (@WB nowrap) with 0. fold s1. lia.
+Qed.
+Theorem cancel_full_thm e c pre x post ch :
+  wf_cfg c -> Forall wf_ev (pre ++ x :: post) -> NWrun e c (start e c) (pre ++ x :: post) -> cmd_on c x ch ->
+  let s1 := run_from e c (start e c) pre in
+  forall tcb tg t0 dur u0 u, In (GFinish tcb ch tg t0 dur u0 u) (outs (run_from e c (start e c) (pre ++ x :: post))) ->
+    In (GFinish tcb ch tg t0 dur u0 u) (outs s1) \/ now s1 <= t0.
+Proof. intros W Wev N Hc. exact (@cancel_full_w nowrap e c pre x post ch W Wev (NWrun_NWwrun _ _ _ _ N) Hc). Qed.
